@@ -51,13 +51,15 @@ def liveness(ctx):
     ctx.add_tlc(res, "SessionPacket liveness (ProgressNoClose under WF, drop budget < MaxTx)")
 
 
-def faults_of(table):
+def faults_of(table, lag=0):
     rules = []
     for f in table["fates"]:
         i = f["id"]
         r = {"ep": i["src"], "kind": i["kind"], "s": -1, "seq": i["seq"], "tx": i["tx"], "fate": f["fate"], "n": 1}
         if i["kind"] == "ack":
             r["tx"] = 0
+        if f["fate"] == "dup":
+            r["ms"] = lag
         rules.append(r)
     return rules
 
@@ -81,7 +83,7 @@ def scenario_from(cfg, k, table, seed, mtu=1400, cpat="", spat=""):
     if not closec:
         sessions.keep_open(sess)
     return {"id": "%s/%d" % (cfg, k), "transport": "udp", "mtu": mtu, "cpat": cpat, "spat": spat,
-            "faults": faults_of(table), "sessions": sess, "seed": seed,
+            "faults": faults_of(table, lag=[0, 25, 3000][k % 3]), "sessions": sess, "seed": seed,
             "expect": "" if closec else "complete", "limit": 400}
 
 
@@ -104,8 +106,7 @@ def named_schedules(seed):
         sc("duplicate-open-response", [F("S", "openresp", 0, 0, "dup"), F("S", "data", -1, 1, "delay", ms=30)]),
         sc("reverse-a-flight", [F("C", "data", 1, 1, "delay", ms=40), F("C", "data", 2, 1, "delay", ms=20)]),
         sc("lose-all-acks-once", [F("S", "ack", -1, 0, "drop", n=6), F("C", "ack", -1, 0, "drop", n=6)]),
-        sc("hole-then-duplicate-of-delivered", [F("C", "data", 2, 1, "drop"), F("C", "data", 1, 1, "dup"),
-                                                F("C", "data", 1, 2, "dup")],
+        sc("hole-then-duplicate-of-delivered", [F("C", "data", 2, 1, "drop"), F("C", "data", 1, 1, "dup", ms=40)],
            c=[["w", 1200], ["w", 1200], ["w", 1200], ["w", 1200], ["rn", 100]], s=[["rn", 4800], ["w", 100]]),
     ]
     # the segment that reopens a closed window: big transfer to a reader that pauses (receive window closes)
